@@ -72,7 +72,7 @@ def pick_budget(r, geom):
     return r.choice([0, 1, 100, 300, 1000, 4096, 1 << 20, 10 * 1024 * 1024, 11 * 1024 * 1024, -1, -1])
 
 
-def gen_behaviour(r, profile, geom, bid, cfg, length=None):
+def gen_behaviour(r, profile, geom, bid, cfg, length=None, safe_first=False):
     g = GEOM[geom]
     ids = IdGen()
     m = Model(geom)
@@ -82,6 +82,7 @@ def gen_behaviour(r, profile, geom, bid, cfg, length=None):
     n = length or r.randint(5, 26)
     ops = []
     appended = {t: [] for t in topics}   # sizes in order (approximate view for offset reads)
+    started = {}
     W = {
         "seq":     {"append": 40, "batch": 12, "read": 15, "bread": 30},
         "peek":    {"append": 32, "batch": 8, "read": 8, "bread": 16, "peek": 18, "oread": 18},
@@ -89,6 +90,7 @@ def gen_behaviour(r, profile, geom, bid, cfg, length=None):
         "restart": {"append": 34, "batch": 8, "read": 12, "bread": 20, "reopen": 14, "mark": 5, "is_clean": 5},
         "marker":  {"append": 30, "mark": 30, "is_clean": 20, "reopen": 20},
         "drain":   {"append": 50, "batch": 10, "read": 10, "bread": 30},
+        "reclaim": {"fill": 45, "append": 5, "read": 12, "bread": 18, "peek": 8, "poll": 8, "reopen": 4},
     }[profile]
     kinds = list(W.keys())
     weights = [W[k] for k in kinds]
@@ -96,6 +98,10 @@ def gen_behaviour(r, profile, geom, bid, cfg, length=None):
     def one_entry(t, allow_big=True):
         s = pick_size(r, m, t, geom, allow_big)
         s = max(0, min(s, g["max_alloc"] - PREFIX))
+        if safe_first and not appended[t] and not started.get(t):
+            # avoidance guard for the known finding about an empty initial block
+            s = min(s, g["block"] - PREFIX)
+        started[t] = True
         return [ids.next(), s]
 
     for _ in range(n):
@@ -120,6 +126,17 @@ def gen_behaviour(r, profile, geom, bid, cfg, length=None):
             for e in es:
                 m.note(t, e[1])
                 appended[t].append(e[1])
+        elif k == "fill":
+            # entries that take (almost) a whole block each, so files fill up quickly
+            sz = r.choice([g["block"] - PREFIX, g["block"] - PREFIX - 1, g["block"] - PREFIX - 300, g["block"] // 2 + 10])
+            e = [ids.next(), sz]
+            ops.append({"op": "append", "t": t, "id": e[0], "size": e[1]})
+            m.note(t, e[1])
+            appended[t].append(e[1])
+        elif k == "poll":
+            for _ in range(r.choice([2, 3, 5])):
+                ops.append(r.choice([{"op": "read", "t": t, "ckpt": True},
+                                     {"op": "bread", "t": t, "budget": -1, "ckpt": True, "off": -1}]))
         elif k == "read":
             ops.append({"op": "read", "t": t, "ckpt": True})
         elif k == "bread":
@@ -209,14 +226,66 @@ CFGS_ALL = [
 ]
 
 
-def corpus(profile, geom, n, seed, cfgs=None, prefix="r"):
+def corpus(profile, geom, n, seed, cfgs=None, prefix="r", safe_first=False, length=None):
     r = random.Random("%s/%s/%d" % (profile, geom, seed))
     cfgs = cfgs or CFGS_ALL
     out = []
     for i in range(n):
         cfg = cfgs[i % len(cfgs)]
-        out.append(gen_behaviour(r, profile, geom, "%s%d" % (prefix, i), cfg))
+        out.append(gen_behaviour(r, profile, geom, "%s%d" % (prefix, i), cfg, safe_first=safe_first,
+                                 length=(r.randint(*length) if length else None)))
     return out
+
+
+def multi_instance(r, geom, bid, cfg, n_inst=2):
+    """Interleaved operations on 2-3 live instances (C13). Instance i uses topics 'a','b'
+    (compound names '1a', ... in traces). Same data dir with distinct keys, or distinct dirs."""
+    g = GEOM[geom]
+    ids = IdGen()
+    layout = r.choice(["keys", "dirs", "mixed"])
+    insts = []
+    for i in range(n_inst):
+        if layout == "keys":
+            insts.append({"dir": "d0", "key": "k%d" % i})
+        elif layout == "dirs":
+            insts.append({"dir": "d%d" % i, "key": None})
+        else:
+            insts.append({"dir": "d%d" % (i % 2), "key": "k%d" % i})
+    ops = []
+    n = r.randint(20, 70)
+    # one instance tends to produce, another to consume: reclamation bookkeeping of one
+    # instance must not be driven by the other's consumption
+    bias = [r.choice([0.2, 0.5, 0.8]) for _ in range(n_inst)]
+    for _ in range(n):
+        i = r.randrange(n_inst)
+        t = r.choice(["a", "a", "a", "b"])
+        x = r.random()
+        x = x * 0.45 / bias[i] if x < bias[i] else 0.45 + (x - bias[i]) * 0.55 / (1 - bias[i])
+        if x < 0.45:
+            sz = r.choice([g["block"] - PREFIX, g["block"] - PREFIX - 1, g["block"] - PREFIX - 7, 300, g["block"] // 2 + 10])
+            ops.append({"op": "append", "i": i, "t": t, "id": ids.next(), "size": sz})
+        elif x < 0.55:
+            ops.append({"op": "batch", "i": i, "t": t, "es": [[ids.next(), r.choice([100, 700, 1500])] for _ in range(r.choice([2, 3]))]})
+        elif x < 0.70:
+            ops.append({"op": "read", "i": i, "t": t, "ckpt": True})
+        elif x < 0.88:
+            ops.append({"op": "bread", "i": i, "t": t, "budget": r.choice([-1, 600, 5000]), "ckpt": True, "off": -1})
+        elif x < 0.93:
+            ops.append({"op": "mark", "i": i, "t": t, "v": r.random() < 0.5})
+            ops.append({"op": "is_clean", "i": r.randrange(n_inst), "t": t})
+        else:
+            ops.append({"op": "reopen", "i": i, "proc": "same"})
+    for i in range(n_inst):
+        for t in ("a", "b"):
+            for _ in range(3):
+                ops.append({"op": "bread", "i": i, "t": t, "budget": -1, "ckpt": True, "off": -1})
+            ops.append({"op": "read", "i": i, "t": t, "ckpt": True})
+            ops.append({"op": "is_clean", "i": i, "t": t})
+    c = dict(cfg)
+    c["insts"] = insts
+    c["topics"] = ["a", "b"]
+    c["proj"] = False
+    return {"id": bid, "cfg": c, "ops": ops}
 
 
 def strip_ops(beh, flag, suffix):
